@@ -14,6 +14,15 @@ def parseItem (s : String) : Option Item :=
   | [id, req, ok] => do pure ⟨← id.toNat?, ← parseBool req, ← parseBool ok⟩
   | _ => none
 
+def parseFrom (s : String) : Option HFrom := do hfromOfCode (← s.toNat?)
+
+/-- `A<from>` (no `to`) or `A<from>.<loc>.<dom>.<res>` -/
+def parseHdrA (s : String) : Option StartTLS.Unit :=
+  match splitList s '.' with
+  | [f] => do pure (.hdrA (← parseFrom f) none)
+  | [f, l, d, r] => do pure (.hdrA (← parseFrom f) (some ⟨← l.toNat?, ← d.toNat?, ← r.toNat?⟩))
+  | _ => none
+
 def parseUnit (s : String) : Option StartTLS.Unit :=
   if s == "H1" then some (.hdr true)
   else if s == "H0" then some (.hdr false)
@@ -24,6 +33,7 @@ def parseUnit (s : String) : Option StartTLS.Unit :=
   else if s == "O" then some .foreign
   else if s == "W" then some .space
   else if s == "M" then some .malformed
+  else if s.startsWith "A" then parseHdrA (s.drop 1).toString
   else if s == "L" then some (.list [])
   else if s.startsWith "L" then do
     let items ← mapM? parseItem (splitList (s.drop 1).toString '+')
@@ -110,7 +120,9 @@ def handle (args : List String) : Option String :=
     let r := run cfg env st0 inp (4 * unitCount inp + 8)
     let adv := ((featuresAfter cfg env st0 inp (4 * unitCount inp + 8)).map (·.1)).eraseDups.mergeSort
     let advS := if adv.isEmpty then "A-" else "A" ++ "+".intercalate (adv.map toString)
-    pure (joinList (r.1.filterMap showEv) ++ " " ++ showOutcome r.2 ++ " " ++ advS)
+    -- what `LocalAddr()` returns afterwards
+    let la := localAfter cfg env st0 inp (4 * unitCount inp + 8)
+    pure (joinList (r.1.filterMap showEv) ++ " " ++ showOutcome r.2 ++ " " ++ advS ++ s!" T{la.loc}.{la.dom}.{la.res}")
   | ["sni", explicit, ss] => do
     let e ← parseBool explicit
     let ss ← mapM? parseSess (splitList ss)
